@@ -32,6 +32,16 @@ impl Name {
         // a custom validation method replaces the generated recursion into the
         // records, so validate them (their string data) here.
         self.name_record.validate_impl(ctx);
+        // the string storage offset is a u16
+        let header_len = 6
+            + self.name_record.len() * 12
+            + self
+                .lang_tag_record
+                .as_ref()
+                .map_or(0, |recs| recs.len() * 4);
+        if header_len > u16::MAX as usize {
+            ctx.report("too many records: storage offset exceeds max value");
+        }
         //TODO: replace with `is_sorted` whenever oss_fuzz is using rustc >= 1.82
         if self
             .name_record
